@@ -62,9 +62,10 @@ type c14Model struct {
 	ord                map[*c14Graph]*c14Val
 	goNode             *c14Node
 
-	anchors []string
-	wf      *c14WalkFacts
-	pdefers *c14Deferred
+	anchors   []string
+	wf        *c14WalkFacts
+	pdefers   *c14Deferred
+	doneAlias map[*types.Var]bool // fields caching the Done channel of the ordering's context (c14_alias.go)
 }
 
 const c14RelID = core.ModulePath + ".RelationID"
